@@ -350,7 +350,7 @@ func returnRows(c *Ctx, fn *ssa.Function) []siteRow {
 			blk := i.Block()
 			hasPhi := false
 			for k := range ret.Results {
-				if phi, ok := retValue(ret, k).(*ssa.Phi); ok && phi.Block() == blk {
+				if mentionsPhiOf(retValue(ret, k), blk, 0) {
 					hasPhi = true
 				}
 			}
@@ -358,12 +358,7 @@ func returnRows(c *Ctx, fn *ssa.Function) []siteRow {
 				for pk, p := range blk.Preds {
 					var vals []string
 					for k := range ret.Results {
-						v := retValue(ret, k)
-						if phi, ok := v.(*ssa.Phi); ok && phi.Block() == blk && pk < len(phi.Edges) {
-							vals = append(vals, c.ExprAt(phi.Edges[pk], p))
-						} else {
-							vals = append(vals, retExpr(c, ret, k))
-						}
+						vals = append(vals, c.ExprOnEdge(retValue(ret, k), blk, pk))
 					}
 					conds := edgeGuards(c, p, blk)
 					sort.Strings(conds)
